@@ -420,6 +420,34 @@ def rule_broadcast_impl(S, res):
         res.ok("R2.6", "broadcast_verification|echo", echo[0].where(), "echoed hash compared with the own hash, mismatch edge fail-closed")
     else:
         res.bad("R2.6", "broadcast_verification|echo", "the echoed hashes are not compared fail-closed with the own hashes (InconsistentBroadcast)")
+    # the comparison runs for every pair (echoing party k, original sender j): both enclosing loops range
+    # over all parties 0..n (minus the own index / k through a filter), none starts at an offset
+    for c in echo[:1]:
+        b = c.body
+        ranges = []
+        for h, body in S.loops(b):
+            if c.block not in body:
+                continue
+            for cbi, ct in b.calls():
+                cn = callee_names(ct)
+                if cbi in body and cn and cn[0].endswith("Iterator::next") and ct["args"] and ct["args"][0]["k"] != "const":
+                    inner = [hb for hb in S.loops(b) if cbi in hb[1]]
+                    if min(inner, key=lambda hb: len(hb[1]))[0] != h:
+                        continue
+                    ib = fg.backward(fg.operand_nodes(c.bk, ct["args"][0]), node_ok=lambda x: x[0] == c.bk, edge_ok=lambda e: e.kind in ("copy", "ref", "agg", "field2whole", "base2field") or (e.kind == "call" and secmod.struct_edge(e)))
+                    il = {x[1] for x in ib}
+                    for blk in b.blocks:
+                        for st in blk["s"]:
+                            if st["k"] == "assign" and st["p"]["l"] in il and st["r"]["k"] == "agg" and (st["r"].get("adt") or "").startswith("core::ops::range::Range") and len(st["r"]["ops"]) == 2:
+                                ranges.append((st["r"]["ops"][0], st["r"]["ops"][1], cbi))
+        full = [r for r in ranges if r[0]["k"] == "const" and r[0].get("v") == "0" and r[1]["k"] != "const"]
+        if len(ranges) >= 2 and len(full) == len(ranges):
+            res.ok("R2.6", "broadcast_verification|all-pairs", c.where(), "the echo comparison is nested in %d loops over 0..n: every (echoing party, sender) pair is compared" % len(ranges))
+        elif len(ranges) < 2:
+            res.bad("R2.6", "broadcast_verification|all-pairs", "cannot find the two loops over all parties around the echo comparison", c.where())
+        else:
+            badr = [r for r in ranges if r not in full][0]
+            res.bad("R2.6", "broadcast_verification|all-pairs", "a loop around the echo comparison does not range over all parties (it starts at an offset): some (echoing party, sender) pairs are never compared, so an equivocating sender is not detected by everybody", where(b, badr[2]))
     # early Ok only for n == 2
     ok_short = False
     bad_short = None
